@@ -244,6 +244,42 @@ def pending_infos(a):
     return out
 
 
+def threaded_fillers(a):
+    """(child) four threads of one process, each writing through its own filler (own sub-directory, infos held back) with shards closing
+    at overlapping times; one commit at the end — a successful writing history: check() passes."""
+    import threading
+    sp.sedpack()
+    from sedpack.io import Dataset, Attribute
+    from sedpack.io.dataset_filler import DatasetFiller
+    root = Path(a["root"]); shutil.rmtree(root, ignore_errors=True)
+    ds = sp.mk(root, fmt=a["fmt"], eps=2, hashes=tuple(a["hashes"]), attrs=[Attribute(name="a", dtype="int32", shape=(2,)), Attribute(name="m", dtype="uint8", shape=(300000,))])
+    fillers, errs = [], []
+    gate = threading.Barrier(4)
+    def tfill(k):
+        try:
+            fl = DatasetFiller(ds, relative_path_from_split=Path(f"t{k}"), auto_update_dataset=False)
+            fillers.append(fl)
+            gate.wait(timeout=30)
+            with fl as f:
+                for v in range(a["n"]):
+                    f.write_example(values={"a": sp.np.array([1000 * k + v] * 2, dtype=sp.np.int32), "m": sp.np.full((300000,), (7 * k + v) % 251, dtype=sp.np.uint8)}, split="train")
+        except Exception as e:  # noqa: BLE001
+            errs.append(f"{type(e).__name__}: {str(e)[:120]}")
+    ths = [threading.Thread(target=tfill, args=(k,)) for k in range(4)]
+    for t in ths: t.start()
+    for t in ths: t.join(300)
+    res = {"errors": errs[:3]}
+    if not errs:
+        ds.write_config(updated_infos=[i for fl in fillers for i in fl.get_updated_infos()])
+        for who, d in (("same handle", ds), ("reopened", Dataset(root))):
+            try:
+                d.check(show_progressbar=False); res[who] = "pass"
+            except Exception as e:  # noqa: BLE001
+                res[who] = f"{type(e).__name__}: {str(e)[:160]}"
+    shutil.rmtree(root, ignore_errors=True)
+    return res
+
+
 def run(ctx):
     rng = ctx.rng("c05")
     cases = []
@@ -285,6 +321,11 @@ def run(ctx):
                 ctx.report({"kind": "false-alarm", "history": "held-back-infos"},
                            f"check() after a successful writing step ({st['step']}, {st.get('who', '')}): {st.get('check') or st.get('error') or st.get('got')}", {"case": pa, "step": st})
                 break
+    # ---- threads of one process with a filler each: a successful history, the check passes
+    ta = {"root": str(ctx.scratch / "c05_threads"), "fmt": ["npz", "fb"][ctx.seed % 2], "hashes": ["sha256"], "n": ctx.pick(12, 40)}
+    tr = child.call("harness.checks.c05", "threaded_fillers", ta, timeout=900)
+    if tr["errors"] or tr.get("same handle") != "pass" or tr.get("reopened") != "pass":
+        ctx.report({"kind": "false-alarm", "history": "threaded-fillers"}, f"check() after four threads wrote through a filler each and their infos were committed together: {tr}", {"case": ta, "result": tr})
     # model verdicts for a sample of the faults (the model says fail for every reachable file, pass without fault)
     reqs = [{"m": "check", "fuel": 8, "sessions": [[[[0, 10], [[1, 2], [2, 1]]], [[0, 11], [[3, 2]]]]], "fault": {"kind": "none"}},
             {"m": "check", "fuel": 8, "sessions": [[[[0, 10], [[1, 2], [2, 1]]], [[0, 11], [[3, 2]]]]], "fault": {"kind": "list", "dir": [0, 11], "how": "alter"}},
